@@ -45,3 +45,22 @@ prop("C01", "c01",
      note="Trusted: the scripted probe mechanisms return exactly the scripted outcome; the converse direction (model allows "
           "=> allowed) is measured and reported in labels, not asserted.",
      technique="property-based testing: reference interpreter (necessary condition) on assembled services, 3 entry points")
+
+prop("C03", "c03",
+     "Generated matcher definitions (scheme unset/http/https; method lists with ALL, !X, duplicates, non-standard methods; "
+     "0-3 hosts of type exact/glob/regex; 1-3 rules x 1-2 routes with path_params of each type on single and named free "
+     "wildcards; allow_encoded_slashes unset/off/on/no_decode; backtracking) and requests (method, scheme via TLS state, "
+     "host, raw path whose captured segments carry arbitrary valid percent-encodings, %2F only where permitted) are run "
+     "through the assembled decision service; the matched rule id and Request.URL.Captures are echoed by the rule's "
+     "header finalizer. Oracle: reference evaluation of the documented semantics (any-one-host, ALL expansion minus "
+     "negations, every path_params expression on the decoded captured value, captures = named wildcards only, decoded per "
+     "setting) combined with the C02 reference lookup. Non-trivial: >=2 hosts, a negated method, path_params on a free "
+     "wildcard, or an encoded octet in the path; distinct by (rules, request).",
+     [dict(run="^TestMatchConditionsAndCaptures$", quick=2500, thorough=20000, shards_thorough=12)],
+     ["gobwas/glob and regexp evaluate single expressions correctly (the same libraries are used by the model)",
+      "method lists consisting only of negations, or whose result is empty, are don't-care",
+      "encoded slashes under setting off are C08's subject; literal segments are sent unencoded (re-encoding is C08)"],
+     level="Randomised generated search on the assembled decision service against a reference evaluation of the documented "
+           "matching semantics; bounded exploration.",
+     note="Trusted: glob/regexp libraries, net/http request parsing, sprig toJson/b64enc used for the echo channel.",
+     technique="property-based testing: reference model of matcher composition and capture decoding, observed end-to-end")
